@@ -49,6 +49,14 @@ def gen_history(src):
         k = src.weighted([(3, ("list", GEN.NUM)), (2, GEN.NUM), (2, GEN.BOOL), (2, ("ctx", (("k", GEN.NUM), ("m", GEN.STR)))), (1, GEN.STR)])
         ast = g.expr(k, src.int(2, 4), dict(env))
         exprs.append({"text": F.r(ast), "scope": src.int(0, nscopes - 1), "pushes": sorted(F.constructs(ast) & PUSHING)})
+    if src.bool(0.2):
+        # a function definition whose body is external (it is built and evaluated to a function value, never invoked here): its formal
+        # parameters get a temporary parsing context like those of every function definition
+        ps = src.sample(["p", "q", names[0], names[-1]], src.int(0, 2))
+        ext = 'function(%s) external {java: {class: "java.lang.Math", method signature: "max(double,double)"}}' % ", ".join(ps)
+        text = src.choice(["[%s, %s]", "{f: %s, g: %s}.g", "if %s = null then 1 else %s"]) % (ext, names[0])
+        exprs.append({"text": text, "scope": src.int(0, nscopes - 1), "pushes": ["fn"]})
+        nexpr += 1
     ops = []
     for _ in range(src.int(5, 40)):
         if src.bool(0.8):
